@@ -322,10 +322,18 @@ CLAIMED["C16"] = {
             "multi-member run and either re-parents its members and adds exactly their level-1 relations or deletes "
             "exactly the members and every relation naming them, leaving everything else and the persistent counters "
             "untouched (merge_all_effect). Correspondence: all 91 390 start-ordered multisets of <= 4 intervals "
-            "over 8 positions (thorough), random lists, every shipped criterion and threshold, re-used objects.",
+            "over 8 positions (thorough), random lists, every shipped criterion and threshold, re-used objects. "
+            "The criteria themselves are tied to the source both ways: tools/py2lean.py translates every function of "
+            "merge_criteria.py into data of GffModel.CritExpr on every run, and GffProofs.Gen.*_eq / defaultCriteria_eq "
+            "prove its interpretation with Python's semantics (None coordinates raise, chained <=, and/or) equal to the "
+            "model's criteria for all features and thresholds; outside the translator's fragment that tie is reported "
+            "as unavailable and the correspondence alone decides (DESIGN 8.10). merge_all with criteria that omit "
+            "mc.strand / mc.feature_type is judged against merge() on an untouched copy.",
     "note": "Trusted: Lean kernel + standard axioms; set order of the merged 'source' compared as a set; inputs are "
-            "distinct objects with integer start <= end; seqids without commas.",
-    "technique": "Lean 4 invariants with step inversion, refinement to a pure sweep + exhaustive correspondence",
+            "distinct objects with integer start <= end; seqids without commas; the translator tools/py2lean.py and the "
+            "interpreter CritExpr.evalB (60 lines).",
+    "technique": "Lean 4 invariants with step inversion, refinement to a pure sweep + criteria proved equal to the "
+                 "interpretation of their translated source + exhaustive correspondence",
     "design_ref": "DESIGN.md §3 C16",
 }
 
